@@ -61,6 +61,8 @@ def run(ck):
         kn = kinds[i % 5]
         dtype = torch.float64 if i % 3 else torch.float32
         d = int(rng.choice([1, 2, 2, 3, 3, 5, 8])) if i % 11 else 24
+        if i % 10 in (4, 9) and (i // 10) % 2 == 0:
+            d = [70, 130, 65][(i // 20) % 3]        # high-dimensional points, d not a multiple of typical block sizes (32 / 64 / 128)
         nx, nz = int(rng.integers(2, 5)), int(rng.integers(2, 5))
         L = float(rng.choice([1e-2, 0.3, 1.0, 7.5, 1e3]))
         p = float(rng.choice([1.0, 1.5, 2.0]))
